@@ -26,7 +26,8 @@ EXPLANATION = (
     " (R12) nonnegative-cone ratio test: component i limits the step iff its direction is < 0 exactly (no tolerance), by -z_i/dz_i (C15.R12 re-run)."
     " (R13) the previous iterate is restored only under status == InsufficientProgress itself, never on a budget termination."
     ' R11 also: backtrack_search gives up only after a tested trial failed.'
-    ' (R15) = C04.R18: the centrality line search evaluates the barrier at the trial point.')
+    ' (R15) = C04.R18: the centrality line search evaluates the barrier at the trial point.'
+    ' (R16) check_termination stores MaxIterations / MaxTime only after the convergence and the slow-progress tests (a budget equal to the iteration at which a longer run stalls must not win over InsufficientProgress); (R17) = C14.R18.')
 ASSUMPTIONS = [
     'rustc MIR construction and trait resolution are correct',
     '0 <= linesearch_backtrack_step <= 1 and 0 < max_step_fraction <= 1 (settings are not validated by the crate)',
@@ -181,6 +182,39 @@ def rollback_only_on_stall(rep, F, tag):
     R.guard(body)
 
 
+def limits_last(rep, F, tag):
+    """"a run limited to k iterations returns the k-th iterate of a longer run": when the longer run stops by itself at iteration k (slow progress: status
+    InsufficientProgress, iterate rolled back), the run with max_iter = k must do the same - the budget test is the last resort, evaluated only after the
+    convergence and progress tests have left the status Unsolved."""
+    from . import shared
+    R = rep.rule('C07.R16', 'check_termination stores MaxIterations / MaxTime only on paths that have already evaluated the convergence and the slow-progress tests')
+
+    def body():
+        f = shared.info_fn(F, 'check_termination')
+        n = 0
+        for val, ret, ev, tr in Walker(f).leaves():
+            seq = [(e[0], e[1], str(e[2])) for e in ev]
+            lim = [i for i, e in enumerate(seq) if e[0] == 'store' and e[1] == 'self.status' and e[2] in ('SolverStatus::MaxIterations', 'SolverStatus::MaxTime')]
+            if not lim:
+                continue
+            n += 1
+            conv = [i for i, e in enumerate(seq) if e[0] == 'call' and e[1] == 'check_convergence_full']
+            R.check(bool(conv) and conv[0] < lim[0], 'after-convergence' + tag, 'a limit status is stored before the convergence test has run', f.loc())
+            # the slow-progress block opens with `iter > 1`; its tests are atoms of the path (evaluated in program order: an atom first needed after
+            # the limit store would mean the block comes later)
+            prog = [k for k in val if k.startswith(('lt(1_u32, arg4)', 'gt(arg4, 1_u32)', 'le(arg4, 1_u32)', 'ge(1_u32, arg4)'))]
+            mi = [k for k in val if 'max_iter' in k and 'self.iterations' in k]
+            order = list(val.keys())
+            ok = bool(prog) and bool(mi) and order.index(prog[0]) < order.index(mi[0])
+            R.check(ok, 'after-progress-test' + tag,
+                    'check_termination stores %s on a path that tests the iteration limit before the slow-progress conditions (order of tests: %s): a budget equal to the '
+                    'iteration at which a longer run stalls then wins over InsufficientProgress, and the rollback the longer run performs is skipped' % (
+                        seq[lim[0]][2], [k[:30] for k in order]), f.loc())
+        R.check(n >= 2, 'paths' + tag, 'only %d limit-storing paths analysed' % n)
+
+    R.guard(body)
+
+
 def run(ctx, rep, tier):
     for cfg in CONFIGS:
         F = ctx.facts(cfg)
@@ -199,6 +233,8 @@ def run(ctx, rep, tier):
         steplen.backtrack_validated(rep, F, tag, 'C07.R11')
         steplen.nn_ratio_test(rep, F, tag, 'C07.R12')
         rollback_only_on_stall(rep, F, tag)
+        limits_last(rep, F, tag)
+        c14.genpow_membership(rep, F, tag, 'C07.R17')
         steplen.barrier_trial_points(rep, F, tag, 'C07.R15')
         from . import c04 as _c04b
         c14.membership_definitions(_c04b._Ren(rep, 'C14.R14', 'C07.R14'), F, E, tag)
